@@ -22,7 +22,7 @@ from harness.adapters import archive as ad
 from harness.core import Ctx, MachineryError, parallel_map
 
 CLAUSES = ("CoveredGrows", "ArchivedCovers", "ReplaceRule", "MIOCap", "MIOCoveredOne",
-           "CoveredConsistent")
+           "CoveredConsistent", "ArchiveOwns")
 ACTIONS = ["CovUpdateA", "AddGoalsA", "ResetA", "MioUpdateA", "MioShrinkA", "MioGetSolA",
            "PopAddA", "PopShrinkA", "PopSampleA"]
 CLS = {"cov": "CoverageArchive", "mio": "MIOArchive", "pop": "MIOPopulation"}
@@ -36,7 +36,7 @@ def _err(sol: dict) -> str:
     return "err" if sol["res"] in ("exc", "to") else "ok"
 
 
-def signature(clause: str, ev: dict, pre: dict) -> str:
+def signature(clause: str, ev: dict, pre: dict, capn: int = 0) -> str:
     """Specific to the class, the call and the kind of input that breaks the clause."""
     post = ev["post"]
     site = "any"
@@ -74,9 +74,12 @@ def signature(clause: str, ev: dict, pre: dict) -> str:
     elif clause == "CoveredGrows":
         site = "goal-lost"
     elif clause == "MIOCap":
-        site = "population-over-capacity"
+        own = all(len(p["sols"]) <= p["cap"] for p in post["pops"])
+        site = "population-over-announced-capacity" if own and capn else "population-over-capacity"
     elif clause == "MIOCoveredOne":
         site = "covered-population"
+    elif clause == "ArchiveOwns":
+        site = "archived-chromosome-edited-outside-archive"
     elif clause == "CoveredConsistent":
         site = "covered-vs-uncovered-records"
     return f"C13/{clause}/{CLS[ev['mode']]}.{METHOD.get(ev['op'], ev['op'])}/{site}"
@@ -98,9 +101,11 @@ def _detail(ev: dict, pre: dict) -> str:
 
 def _batches(ctx: Ctx):
     """Yield (name, behaviours): exhaustive MC_Archive configurations, then random long ones."""
-    cfgs = ["MC_Archive.cfg", "MC_Archive_pairs.cfg"]
+    # MC_Archive_shrink: one MIO target, every history of updates / shrinks (n lowered at any fill
+    # level of the population) / samples
+    cfgs = ["MC_Archive.cfg", "MC_Archive_pairs.cfg", "MC_Archive_shrink.cfg"]
     if not ctx.quick:
-        cfgs += ["MC_Archive_t_cov3.cfg", "MC_Archive_t_cov2.cfg", "MC_Archive_t_mio3.cfg",
+        cfgs += ["MC_Archive_t_shrink.cfg","MC_Archive_t_cov3.cfg", "MC_Archive_t_cov2.cfg", "MC_Archive_t_mio3.cfg",
                  "MC_Archive_t_mio2.cfg", "MC_Archive_t_pop3.cfg"]
     for cfg in cfgs:
         yield cfg[:-4], ctx.behaviours("MC_Archive", cfg)
@@ -109,13 +114,25 @@ def _batches(ctx: Ctx):
                         for k, st in enumerate(sims) if st.get("hist")]
 
 
+LS_ON = {"local_search": True, "local_search_probability": 1.0, "local_search_time": 2000}
+
+
 def _p1_jobs(ctx: Ctx) -> list[dict]:
+    """Real searches observed call by call and after every step of the search loop (archived tests
+    re-executed).  Both tiers: DynaMOSA with local search on (every primitive statement is tried) on a
+    module of integer equalities, a few seeds.  Thorough: also DYNAMOSA / MOSA / MIO without it."""
     jobs = []
+    for k in range(6 if ctx.quick else 10):
+        jobs.append({"algorithm": "DYNAMOSA", "dir": str(ctx.work / f"p1-ls-{k}"), "module": "c13_ls_sut",
+                     "sut": "ls", "seed": ctx.seed + 101 + k, "iterations": 6, "population": 6,
+                     "max_events": 120, "local_search": LS_ON, "every_step": True})
+    if ctx.quick:
+        return jobs
     for k, (alg, iters, pop) in enumerate([("DYNAMOSA", 12, 6), ("DYNAMOSA", 10, 4), ("MOSA", 10, 6),
                                            ("MIO", 80, 4), ("MIO", 60, 4)]):
         jobs.append({"algorithm": alg, "dir": str(ctx.work / f"p1-{k}"), "module": "c13_sut",
                      "seed": ctx.seed + 1 + k, "iterations": iters, "population": pop,
-                     "max_events": 120})
+                     "max_events": 120, "every_step": True})
     return jobs
 
 
@@ -136,7 +153,8 @@ def _judge(ctx: Ctx, traces: list[dict], behs: list, kind: str) -> None:
                 continue
             if clause not in CLAUSES:
                 raise MachineryError(f"unexpected formula {clause} violated in trace {idx}")
-            ctx.bad(clause, signature(clause, ev, pre), _detail(ev, pre),
+            capn = ([e["n"] for e in tr["ev"][:step] if e["op"] in ("init", "shrink", "pop_shrink")] or [0])[-1]
+            ctx.bad(clause, signature(clause, ev, pre, capn), _detail(ev, pre) + f" announced capacity={capn}",
                     trace={"ev": tr["ev"][:step]}, behaviour=behs[idx])
 
 
@@ -157,6 +175,10 @@ def run(ctx: Ctx) -> None:
         "difference not explained by logged assignments must be reachable by legal replacements "
         "among the solutions offered in that call",
         "strict-shorter applies to CoverageArchive only; reset() is excluded from CoveredGrows",
+        "MIOCap: the capacity is the one announced to the archive (initial size, then the n of the last "
+        "shrink_solutions / shrink_population), and the population's own _capacity",
+        "ArchiveOwns: between two archive calls nobody replaces or edits an archived chromosome (identity, "
+        "statements, size compared after every step of the observed search loops)",
     ]
     ctx.design("Archive", "Archive.cfg" if ctx.quick else "Archive_thorough.cfg",
                coverage_actions=ACTIONS)
@@ -201,17 +223,22 @@ def run(ctx: Ctx) -> None:
     flush()
     ctx.notes["behaviours"] = counts
 
-    if not ctx.quick:
+    if True:
         jobs = _p1_jobs(ctx)
         import multiprocessing as mp
-        with mp.get_context("fork").Pool(len(jobs)) as pool:
+        with mp.get_context("fork").Pool(min(8, len(jobs))) as pool:
             p1 = pool.map(_p1_one, jobs, chunksize=1)
         ctx.notes["p1_runs"] = [{"algorithm": j["algorithm"], "seed": j["seed"],
                                  "iterations": j["iterations"], "archive_calls": t["calls_seen"],
+                                 "local_search": bool(j.get("local_search")),
+                                 "steps_rechecked": t["steps_seen"],
                                  "events_recorded": len(t["ev"]), "goals": len(t["goals"]),
                                  "covered_at_end": sum(1 for s in t["ev"][-1]["post"]["cov"] if s["id"])
                                  + sum(1 for p in t["ev"][-1]["post"]["pops"] if p["covd"])}
                                 for j, t in zip(jobs, p1)]
+        for j, t in zip(jobs, p1):
+            if t.get("aborted"):
+                ctx.drift.append(f"P1: {j['algorithm']} seed {j['seed']} aborted: {t['aborted']}")
         for t in p1:
             if len(t["ev"]) < 5:
                 raise MachineryError("P1 run recorded almost no archive calls (vacuous)")
